@@ -12,15 +12,18 @@ the jumps of a fragment stay inside it (`jumpsLocal`).  On the real compiler's o
 proviso is checked per piece by C04's verified certificate checker (oracle request `frag`).
 
 Layer 2 (`Stmt`, `Piece`, `Repl`): the REPL state machine of cmd/risor/repl/repl.go
-(`getEvaluator`): ONE compiler whose main code, symbol table and constant pool only grow
-(compiler.Compile has no rollback on error), ONE VM that resumes at the saved instruction
-pointer, keeps its operand stack between runs (every piece leaves one value), reloads the
-main code with a fresh copy of the globals (functions loaded by earlier runs keep the old
-copy), and the REPL's `SetIP(end)` after a run-time error.  A top-level statement is an
-opaque, position-independent, stack-neutral fragment (justified by layer 1 + C04), so the
-machine state is the TRACE of executed statement identities: every real semantics of
+(`getEvaluator`): ONE compiler whose main code, symbol table and constant pool grow with every
+ACCEPTED piece (compiler.Compile rolls back what a rejected piece added; compileFunc switches
+back to the enclosing code on its error paths), ONE VM that resumes at the saved instruction
+pointer on an EMPTY operand stack (the previous run's result is dropped when Run resumes), reloads
+the main code with a fresh copy of the globals (functions loaded by earlier runs keep the old
+copy — still a recorded defect), and the REPL's `SetIP(end)` after a run-time error.  A top-level
+statement is an opaque, position-independent, stack-neutral fragment (justified by layer 1 + C04),
+so the machine state is the TRACE of executed statement identities: every real semantics of
 statements is a function of that trace, hence equal traces give equal globals, values and
 output.  `Impl` is the code as it is (defects included), `Spec` what the property demands.
+The machine of the code BEFORE the three repairs (no rollback, compiler stuck in a function,
+one stack slot per piece) is kept as `PreFix.Repl` for the historical `C18_fixed_*` statements.
 -/
 namespace Risor.C18
 
@@ -70,9 +73,19 @@ def jumpsLocal (c : List BIns) : Bool := jumpsLocalFrom c.length 0 c
 def replProtocol : List String :=
   ["compiler.New", "parser.Parse", "c.Compile", "vm.New", "v.Run", "v.SetIP", "code.InstructionCount", "v.TOS"]
 
-/-- (*Compiler).Compile assigns only these through its receiver: it never truncates the main
-    code, the symbol table or the constants and never resets `c.current` — no rollback -/
-def compileAssigns : List String := ["c.failure", "c.main.filename", "c.main.source"]
+/-- (*Compiler).Compile rolls the main code back when compilation fails: the mark is taken before
+    anything is compiled and `c.main.rollback(mark)` is the first statement of the error branch -/
+def compileRollsBackOnError : Bool := true
+
+/-- what `(*Code).rollback` restores: the fields of the code object it assigns and the method it calls on
+    the symbol table; and what `(*SymbolTable).truncate` restores (`delete:` = entries removed from a map) -/
+def rollbackRestores : List String :=
+  ["c.children", "c.constants", "c.instructions", "c.names", "c.source", "call:c.symbols.truncate"]
+def truncateRestores : List String := ["delete:t.symbolsByName", "t.children", "t.symbols"]
+
+/-- (*VirtualMachine).Run drops what the previous run left on the operand stack before it resumes:
+    `for vm.sp >= 0 { vm.pop() }` under `if !resetState` in runCodeInternal, before activateCode -/
+def runStartsOnEmptyStack : Bool := true
 
 /-! ## Layer 2: statements, pieces, compiler and VM of the REPL -/
 
@@ -87,10 +100,10 @@ structure Stmt where
   cdecl  : List Nat := []     -- constants (const, named functions) it declares
   fails  : Bool := false      -- raises a run-time error when executed
   leak   : Nat := 0           -- operands the failing statement leaves on the stack
-  need   : Nat := 1           -- operand-stack slots the statement needs above the current top
-  pre    : Nat := 0           -- values pushed by the code emitted BEFORE its compile error surfaces
-  inFn   : Bool := false      -- its compile error surfaces inside a function body
-  junk   : Bool := false      -- the code emitted before its compile error also holds stack-neutral instructions
+  need   : Nat := 1           -- operand-stack slots the statement needs above the current top (read by `PreFix` only)
+  pre    : Nat := 0           -- values pushed by the code emitted BEFORE its compile error surfaces (`PreFix` only)
+  inFn   : Bool := false      -- its compile error surfaces inside a function body (`PreFix` only)
+  junk   : Bool := false      -- the code emitted before its compile error also holds stack-neutral instructions (`PreFix` only)
   fdefs  : List Nat := []     -- global-sensitive functions whose constants it adds to the main code
   calls  : List Nat := []     -- global-sensitive functions it may call when executed
   deriving Repr, DecidableEq, Inhabited
@@ -135,41 +148,32 @@ def sep (s : Stmt) (last : Bool) : List AIns :=
     (if s.isExpr then [] else (if s.lv then [.pop] else []) ++ [.push 0])
   else (if s.lv then [.pop] else [])
 
-inductive CRes where
-  | ok
-  | rejected (inFn : Bool)
-  deriving Repr, DecidableEq, Inhabited
-
 structure COut where
   code : List AIns
   syms : Syms
   fns  : List Nat
-  res  : CRes
   deriving Repr, Inhabited
 
-/-- compiler.compileProgram on one piece, statement by statement, WITHOUT rollback: when a
-    statement is rejected, everything emitted and declared before it stays -/
-def compileStmts (y : Syms) : List Stmt → COut
-  | [] => ⟨[], y, [], .ok⟩
+/-- (*Compiler).Compile on one piece, statement by statement (compileProgram).  `none`: a statement is
+    rejected — Compile then rolls the main code, its constants, names, child codes and the root symbol
+    table back to what they were at entry (and compileFunc has switched back to the main code), so
+    NOTHING the piece emitted or declared remains -/
+def compileStmts (y : Syms) : List Stmt → Option COut
+  | [] => some ⟨[], y, []⟩
   | s :: rest =>
     if s.resolves y then
-      let r := compileStmts (y.add s) rest
-      ⟨frag s ++ sep s rest.isEmpty ++ r.code, r.syms, s.fdefs ++ r.fns, r.res⟩
-    else ⟨List.replicate s.pre (.push 0) ++ (if s.junk then [.push 0, .pop] else []), y, [], .rejected s.inFn⟩
+      (compileStmts (y.add s) rest).map fun r => ⟨frag s ++ sep s rest.isEmpty ++ r.code, r.syms, s.fdefs ++ r.fns⟩
+    else none
 
 structure Comp where
   code  : List AIns := []
   syms  : Syms := {}
   fns   : List Nat := []       -- function constants of the main code
-  stuck : Bool := false        -- compiler.current was left inside a function's code object
   deriving Repr, Inhabited
-
-/-- capacity of the VM's operand stack (vm.MaxStackDepth) -/
-def cap : Nat := 1024
 
 structure VM where
   ip    : Nat := 0
-  stack : List Nat := []                 -- value identities, top first
+  stack : List Nat := []                 -- value identities, top first: what the LAST run left
   trace : List (Nat × Bool) := []        -- executed statements; `true` = ran against a stale globals copy
   old   : List Nat := []                 -- functions loaded by an earlier run (they keep that run's globals)
   deriving Repr, Inhabited
@@ -180,15 +184,15 @@ structure XOut where
   ok    : Bool
   deriving Repr, Inhabited
 
-/-- vm.eval over the abstract instructions from the resume point to the end of the code -/
+/-- vm.eval over the abstract instructions from the resume point to the end of the code.  Every run starts
+    on an empty stack and statements are stack-neutral, so the height never exceeds what ONE statement
+    needs: a statement that overflows the VM on its own does so in the whole program too — it is a
+    statement with `fails` — and the capacity plays no role in comparing the two evaluations. -/
 def execFrom (old : List Nat) : List AIns → List Nat → List (Nat × Bool) → XOut
   | [], stk, tr => ⟨stk, tr, true⟩
-  | .eff id need calls :: rest, stk, tr =>
-    if stk.length + need > cap then ⟨stk, tr, false⟩
-    else execFrom old rest stk (tr ++ [(id, calls.any old.contains)])
+  | .eff id _ calls :: rest, stk, tr => execFrom old rest stk (tr ++ [(id, calls.any old.contains)])
   | .fail id leak :: _, stk, tr => ⟨List.replicate leak 0 ++ stk, tr ++ [(id, false)], false⟩
-  | .push v :: rest, stk, tr =>
-    if stk.length ≥ cap then ⟨stk, tr, false⟩ else execFrom old rest (v :: stk) tr
+  | .push v :: rest, stk, tr => execFrom old rest (v :: stk) tr
   | .pop :: rest, stk, tr => execFrom old rest stk.tail tr
 
 inductive Outcome where
@@ -203,21 +207,17 @@ structure Repl where
   vm   : VM := {}
   deriving Repr, Inhabited
 
-/-- one call of the REPL's evaluator (getEvaluator): Parse, Compile into the same main code,
-    Run from the saved ip, SetIP(end of code) after a run-time error, TOS -/
+/-- one call of the REPL's evaluator (getEvaluator): Parse, Compile into the same main code (rolled back
+    when the piece is rejected: compiler and VM are exactly as before), Run from the saved ip on an EMPTY
+    operand stack (`runStartsOnEmptyStack`), SetIP(end of code) after a run-time error, TOS -/
 def Repl.feed (r : Repl) : Piece → Repl × Outcome
   | .bad => (r, .parseRejected)
   | .stmts l =>
-    let o := compileStmts r.comp.syms l
-    let comp : Comp :=
-      { code := if r.comp.stuck then r.comp.code else r.comp.code ++ o.code
-        syms := o.syms
-        fns := if r.comp.stuck then r.comp.fns else r.comp.fns ++ o.fns
-        stuck := r.comp.stuck || o.res == .rejected true }
-    match o.res with
-    | .rejected _ => ({ r with comp := comp }, .compileRejected)
-    | .ok =>
-      let x := execFrom r.vm.old (comp.code.drop r.vm.ip) r.vm.stack r.vm.trace
+    match compileStmts r.comp.syms l with
+    | none => (r, .compileRejected)
+    | some o =>
+      let comp : Comp := { code := r.comp.code ++ o.code, syms := o.syms, fns := r.comp.fns ++ o.fns }
+      let x := execFrom r.vm.old (comp.code.drop r.vm.ip) [] r.vm.trace
       let vm : VM := { ip := comp.code.length, stack := x.stack, trace := x.trace, old := comp.fns }
       ({ comp := comp, vm := vm }, if x.ok then .ok (x.stack.headD 0) else .failed)
 
@@ -276,13 +276,7 @@ def SpecSt.run (st : SpecSt) : List Piece → SpecSt × List Outcome
 /-- whole-program evaluation of the statements of all pieces at once -/
 def wholeOf (ps : List (List Stmt)) : Piece := .stmts ps.flatten
 
-/-! ### Guards: what `C18_partial` excludes (one per defect of the unchanged code) -/
-
-/-- G1 `RejectedPiecesEmitNothing`: a piece the compiler rejects is rejected at its first
-    statement, before any instruction was emitted, and not inside a function body -/
-def rejectsCleanly : List Stmt → Bool
-  | [] => true
-  | s :: _ => s.pre == 0 && !s.inFn && !s.junk
+/-! ### Guards: what `C18_partial` excludes (one per RECORDED defect of the code) -/
 
 /-- G4 `FailingPieceDeclaresNothingLater`: from its failing statement on, a piece declares no name -/
 def declaresAfterFailure : List Stmt → Bool
@@ -291,7 +285,7 @@ def declaresAfterFailure : List Stmt → Bool
     if s.fails then (s :: rest).any (fun t => !(t.vdecl.isEmpty && t.cdecl.isEmpty))
     else declaresAfterFailure rest
 
-/-- operand slots the failing statement of the piece leaves behind (0 if none fails) -/
+/-- operand slots the failing statement of the piece leaves behind (`none` if none fails) -/
 def leakOf : List Stmt → Option Nat
   | [] => none
   | s :: rest => if s.fails then some s.leak else leakOf rest
@@ -306,23 +300,21 @@ def fnsOf (l : List Stmt) : List Nat := (l.map (·.fdefs)).flatten
 
 structure GSt where
   syms : Syms := {}
-  ht   : Nat := 0            -- operand-stack height between pieces
+  ht   : Nat := 0            -- operand-stack height the LAST run left (not a guard: see `stack_holds_last_run_only`)
   fns  : List Nat := []      -- function constants loaded so far (every one of them by an earlier run)
   deriving Repr, Inhabited
 
-/-- guard of one piece, evaluated in the state the pieces before it produce -/
+/-- guard of one piece, evaluated in the state the pieces before it produce.  A piece the compiler
+    rejects is inside the guard whatever it emitted or declared before the error and wherever the error
+    surfaces (the former G1), and so is every accepted piece however many pieces ran before it (the
+    former G2 `PieceCountBelowCapacity`). -/
 def pieceGuard (g : GSt) : Piece → Bool
   | .bad => true
   | .stmts l =>
     if allResolve g.syms l then
-      -- G2 PieceCountBelowCapacity, G3 NoStaleFunctionView, G4
-      l.all (fun s => g.ht + s.need + 1 ≤ cap && !(s.calls.any g.fns.contains))
-        && !declaresAfterFailure l && !l.isEmpty
-    else
-      -- G1: the first statement is the one that does not compile
-      (match l with
-       | [] => true
-       | s :: _ => !s.resolves g.syms && s.pre == 0 && !s.inFn && !s.junk)
+      -- G3 NoStaleFunctionView, G4; and the piece has a statement
+      l.all (fun s => !(s.calls.any g.fns.contains)) && !declaresAfterFailure l && !l.isEmpty
+    else true
 
 def GSt.next (g : GSt) : Piece → GSt
   | .bad => g
@@ -330,7 +322,7 @@ def GSt.next (g : GSt) : Piece → GSt
     if allResolve g.syms l then
       let x := specExec g.syms [] 0 l
       { syms := x.syms
-        ht := match leakOf l with | some k => g.ht + k | none => g.ht + 1
+        ht := match leakOf l with | some k => k | none => 1
         fns := g.fns ++ fnsOf l }
     else g
 
@@ -341,7 +333,7 @@ def guardFrom (g : GSt) : List Piece → Bool
 /-- the decidable guard of `C18_partial` -/
 def guard (h : List Piece) : Bool := guardFrom {} h
 
-/-- which of the four guards a history violates when the guard's bookkeeping starts in `g0`
+/-- which of the two guards a history violates when the guard's bookkeeping starts in `g0`
     (for attributing a spec violation) -/
 def violatedGuardsFrom (g0 : GSt) (h : List Piece) : List String :=
   let rec go (g : GSt) : List Piece → List String
@@ -352,22 +344,96 @@ def violatedGuardsFrom (g0 : GSt) (h : List Piece) : List String :=
         | .bad => []
         | .stmts l =>
           if allResolve g.syms l then
-            (if l.all (fun s => g.ht + s.need + 1 ≤ cap) then [] else ["capacity"]) ++
             (if l.all (fun s => !(s.calls.any g.fns.contains)) then [] else ["stale-fn"]) ++
             (if declaresAfterFailure l then ["decl-after-failure"] else [])
-          else
-            (match l with
-             | [] => []
-             | s :: _ =>
-               if !s.resolves g.syms && s.pre == 0 && !s.inFn && !s.junk then []
-               else match firstBad g.syms l with
-                 | some b => if b.inFn then ["stuck-compiler"] else ["leaked-code"]
-                 | none => [])
+          else []
       here ++ go (g.next p) ps
   go g0 h
 
-/-- which of the four guards a history violates (no host-supplied names) -/
+/-- which of the two guards a history violates (no host-supplied names) -/
 def violatedGuards (h : List Piece) : List String := violatedGuardsFrom {} h
+
+/-! ### The machine of the code BEFORE the repairs (historical)
+
+Until the `fix:` commits for C18-rejected-piece-code-runs-later, C18-compiler-stuck-in-function and
+C18-stack-slot-per-piece: `Compile` had no rollback (what a rejected piece emitted and declared before its
+error stayed in the main code and ran with the next accepted piece), `compileFunc` left `Compiler.current`
+inside the function's code after an error in its body (every later piece was compiled into the dead code,
+reported as accepted, and never ran), and `Run` resumed on the stack the previous runs had left (one value
+per piece, 1024 slots).  Kept for the checked statements `C18_fixed_*` of `Props.lean`; nothing else uses it. -/
+namespace PreFix
+
+inductive CRes where
+  | ok
+  | rejected (inFn : Bool)
+  deriving Repr, DecidableEq, Inhabited
+
+structure COut where
+  code : List AIns
+  syms : Syms
+  fns  : List Nat
+  res  : CRes
+  deriving Repr, Inhabited
+
+/-- compileProgram WITHOUT rollback: when a statement is rejected, everything emitted and declared before it stays -/
+def compileStmts (y : Syms) : List Stmt → COut
+  | [] => ⟨[], y, [], .ok⟩
+  | s :: rest =>
+    if s.resolves y then
+      let r := compileStmts (y.add s) rest
+      ⟨frag s ++ sep s rest.isEmpty ++ r.code, r.syms, s.fdefs ++ r.fns, r.res⟩
+    else ⟨List.replicate s.pre (.push 0) ++ (if s.junk then [.push 0, .pop] else []), y, [], .rejected s.inFn⟩
+
+structure Comp where
+  code  : List AIns := []
+  syms  : Syms := {}
+  fns   : List Nat := []
+  stuck : Bool := false        -- compiler.current was left inside a function's code object
+  deriving Repr, Inhabited
+
+/-- capacity of the VM's operand stack (vm.MaxStackDepth) -/
+def cap : Nat := 1024
+
+/-- vm.eval with the capacity of the operand stack: the stack persisted between runs -/
+def execFrom (old : List Nat) : List AIns → List Nat → List (Nat × Bool) → XOut
+  | [], stk, tr => ⟨stk, tr, true⟩
+  | .eff id need calls :: rest, stk, tr =>
+    if stk.length + need > cap then ⟨stk, tr, false⟩
+    else execFrom old rest stk (tr ++ [(id, calls.any old.contains)])
+  | .fail id leak :: _, stk, tr => ⟨List.replicate leak 0 ++ stk, tr ++ [(id, false)], false⟩
+  | .push v :: rest, stk, tr =>
+    if stk.length ≥ cap then ⟨stk, tr, false⟩ else execFrom old rest (v :: stk) tr
+  | .pop :: rest, stk, tr => execFrom old rest stk.tail tr
+
+structure Repl where
+  comp : Comp := {}
+  vm   : VM := {}
+  deriving Repr, Inhabited
+
+def Repl.feed (r : Repl) : Piece → Repl × Outcome
+  | .bad => (r, .parseRejected)
+  | .stmts l =>
+    let o := compileStmts r.comp.syms l
+    let comp : Comp :=
+      { code := if r.comp.stuck then r.comp.code else r.comp.code ++ o.code
+        syms := o.syms
+        fns := if r.comp.stuck then r.comp.fns else r.comp.fns ++ o.fns
+        stuck := r.comp.stuck || o.res == .rejected true }
+    match o.res with
+    | .rejected _ => ({ r with comp := comp }, .compileRejected)
+    | .ok =>
+      let x := execFrom r.vm.old (comp.code.drop r.vm.ip) r.vm.stack r.vm.trace
+      let vm : VM := { ip := comp.code.length, stack := x.stack, trace := x.trace, old := comp.fns }
+      ({ comp := comp, vm := vm }, if x.ok then .ok (x.stack.headD 0) else .failed)
+
+def Repl.run (r : Repl) : List Piece → Repl × List Outcome
+  | [] => (r, [])
+  | p :: ps =>
+    let (r1, o) := r.feed p
+    let (r2, os) := Repl.run r1 ps
+    (r2, o :: os)
+
+end PreFix
 
 /-! ### Host-supplied globals
 
@@ -417,7 +483,7 @@ inductive Mark where
 /-- per compile-only field of compiler.go: is it restored on the error path (every function
     that sets it resets it in a deferred function)?  Tied to the sources by `Ties.lean`. -/
 def compileOnlyRestores : List (String × Bool) :=
-  [("current", false), ("loops", true), ("pendingSwitchValues", true), ("pipeActive", true), ("symbols", true)]
+  [("current", true), ("loops", true), ("pendingSwitchValues", true), ("pipeActive", true), ("symbols", true)]
 
 def Mark.field : Mark → String
   | .pipe => "pipeActive"
@@ -442,22 +508,35 @@ structure MOut where
   ok   : Bool
   deriving Repr, DecidableEq, Inhabited
 
-/-- one call of Compile: `inh` = marks left set by earlier calls, `own` = marks set by this call -/
-def compileEvs (inh : List Mark) : List Mark → List CEv → MOut
+/-- one call of Compile under a table `R` saying which marks are restored on the error path:
+    `inh` = marks left set by earlier calls, `own` = marks set by this call -/
+def compileEvsR (R : Mark → Bool) (inh : List Mark) : List Mark → List CEv → MOut
   | own, [] => ⟨own, [], true⟩
-  | own, .enter m :: rest => compileEvs inh (m :: own) rest
-  | own, .leave :: rest => compileEvs inh own.tail rest
+  | own, .enter m :: rest => compileEvsR R inh (m :: own) rest
+  | own, .leave :: rest => compileEvsR R inh own.tail rest
   | own, .emit k sens :: rest =>
-    let r := compileEvs inh own rest
+    let r := compileEvsR R inh own rest
     ⟨r.own, (k, sens.filter (fun m => own.contains m || inh.contains m)) :: r.code, r.ok⟩
-  | own, .err :: _ => ⟨own.filter (fun m => !m.restored), [], false⟩
+  | own, .err :: _ => ⟨own.filter (fun m => !R m), [], false⟩
 
-/-- the pieces of a history, compiled one after the other by the same compiler (Impl) -/
-def marksRun (inh : List Mark) : List (List CEv) → List MOut
+/-- the pieces of a history, compiled one after the other by the same compiler -/
+def marksRunR (R : Mark → Bool) (inh : List Mark) : List (List CEv) → List MOut
   | [] => []
   | evs :: rest =>
-    let r := compileEvs inh [] evs
-    r :: marksRun (r.own ++ inh) rest
+    let r := compileEvsR R inh [] evs
+    r :: marksRunR R (r.own ++ inh) rest
+
+/-- one call of Compile as the code is (`Mark.restored`, the extracted table) -/
+def compileEvs (inh : List Mark) : List Mark → List CEv → MOut := compileEvsR Mark.restored inh
+
+/-- the pieces of a history, compiled one after the other by the same compiler (Impl) -/
+def marksRun (inh : List Mark) : List (List CEv) → List MOut := marksRunR Mark.restored inh
+
+/-- HISTORICAL: the table before the repair of C18-compiler-stuck-in-function — `Compiler.current` was set
+    by compileFunc and not restored on its error paths -/
+def preFixRestored : Mark → Bool
+  | .fn => false
+  | _ => true
 
 /-- Spec: every piece is compiled as by a compiler that has seen no rejected piece -/
 def marksSpec (h : List (List CEv)) : List MOut := h.map (compileEvs [] [])
@@ -470,16 +549,20 @@ def balancedFrom : Nat → List CEv → Bool
   | d, .emit _ _ :: rest => balancedFrom d rest
   | _, .err :: _ => true
 
-/-- guard of `marks_partial`: when the error surfaces, every mark set by this call is one that is
-    restored on the error path (as the code is: the error is not inside a function literal) -/
-def errClean : List Mark → List CEv → Bool
+/-- when the error surfaces, every mark set by this call is one that table `R` restores on the error path
+    (true of every event sequence under the table of the code as it is: `errClean_restored`) -/
+def errClean (R : Mark → Bool) : List Mark → List CEv → Bool
   | _, [] => true
-  | own, .enter m :: rest => errClean (m :: own) rest
-  | own, .leave :: rest => errClean own.tail rest
-  | own, .emit _ _ :: rest => errClean own rest
-  | own, .err :: _ => own.all (·.restored)
+  | own, .enter m :: rest => errClean R (m :: own) rest
+  | own, .leave :: rest => errClean R own.tail rest
+  | own, .emit _ _ :: rest => errClean R own rest
+  | own, .err :: _ => own.all R
 
-def marksGuard (h : List (List CEv)) : Bool := h.all (fun evs => balancedFrom 0 evs && errClean [] evs)
+/-- what every history of piece compilations satisfies: `enter`/`leave` are bracketed -/
+def marksWf (h : List (List CEv)) : Bool := h.all (balancedFrom 0)
+
+/-- HISTORICAL guard of `marks_partial` before the repair: additionally, no compile error inside a function literal -/
+def preFixMarksGuard (h : List (List CEv)) : Bool := h.all (fun evs => balancedFrom 0 evs && errClean preFixRestored [] evs)
 
 /-! ## Layer 4: generations of the globals array and the time a function is bound to one
 
@@ -693,11 +776,11 @@ def HRepl.feed (h : HRepl) (c : Ctx) (p : Piece) : HRepl × Outcome :=
   let halt0 := if startClearsHalt c then false else h.halt
   let (r1, o) := h.r.feed p
   if halt0 then
-    -- eval returns ctx.Err() before the first instruction: the piece is compiled but nothing of it runs
+    -- eval returns ctx.Err() before the first instruction: the piece is compiled, the stack is emptied, nothing runs
     match o with
     | .parseRejected => ({ h with r := r1 }, o)
     | .compileRejected => ({ h with r := r1 }, o)
-    | _ => ({ r := { comp := r1.comp, vm := h.r.vm }, halt := true }, .ok (h.r.vm.stack.headD 0))
+    | _ => ({ r := { comp := r1.comp, vm := { h.r.vm with stack := [] } }, halt := true }, .ok 0)
   else
     match o with
     | .parseRejected => ({ r := r1, halt := h.halt }, o)
